@@ -4,6 +4,7 @@ mod common;
 mod mc;
 mod mcnet;
 mod script_proc;
+mod sim;
 mod store;
 
 use common::*;
@@ -12,12 +13,22 @@ fn run_scenario(sc: &Scenario) -> String {
     match sc.cls.as_str() {
         "STORE" => store::run(sc),
         "MC" => mc::run(sc),
+        "SIM" => sim::run(sc),
         c => format!("UNSUPPORTED {}\n", c),
     }
 }
 
 fn main() {
     let args: Vec<String> = std::env::args().collect();
+    if args.len() >= 4 && args[1] == "draws" {
+        // harness draws <n> <seed>...
+        let n: usize = args[2].parse().unwrap();
+        for s in &args[3..] {
+            let seed: u64 = s.parse().unwrap();
+            println!("{} {}", seed, sim::draws(seed, n));
+        }
+        return;
+    }
     if args.len() < 3 || args[1] != "run" {
         eprintln!("usage: harness run <scenario-file>");
         std::process::exit(3);
